@@ -3,6 +3,7 @@ package backend
 import (
 	"context"
 
+	"github.com/ProtonMail/gluon/connector"
 	"github.com/ProtonMail/gluon/imap"
 	"github.com/ProtonMail/gluon/limits"
 	"github.com/sirupsen/logrus"
@@ -26,6 +27,29 @@ func (c *verifCredConn) GetMailboxVisibility(ctx context.Context, id imap.Mailbo
 	return imap.Visible
 }
 
+// the remote side accepts every change a session makes and reports nothing back
+func (c *verifCredConn) AddMessagesToMailbox(ctx context.Context, cache connector.IMAPStateWrite, messageIDs []imap.MessageID, mboxID imap.MailboxID) error {
+	return nil
+}
+func (c *verifCredConn) RemoveMessagesFromMailbox(ctx context.Context, cache connector.IMAPStateWrite, messageIDs []imap.MessageID, mboxID imap.MailboxID) error {
+	return nil
+}
+func (c *verifCredConn) MoveMessages(ctx context.Context, cache connector.IMAPStateWrite, messageIDs []imap.MessageID, mboxFromID, mboxToID imap.MailboxID) (bool, error) {
+	return true, nil
+}
+func (c *verifCredConn) MarkMessagesSeen(ctx context.Context, cache connector.IMAPStateWrite, messageIDs []imap.MessageID, seen bool) error {
+	return nil
+}
+func (c *verifCredConn) MarkMessagesFlagged(ctx context.Context, cache connector.IMAPStateWrite, messageIDs []imap.MessageID, flagged bool) error {
+	return nil
+}
+func (c *verifCredConn) MarkMessagesForwarded(ctx context.Context, cache connector.IMAPStateWrite, messageIDs []imap.MessageID, forwarded bool) error {
+	return nil
+}
+
+// VerifInboxFlags: flags of the message each user's INBOX holds (set by a harness before it builds the backend).
+var VerifInboxFlags []string
+
 // VerifNewBackendUsers returns a Backend (built by New) with two users, "alice"/"pw1" (user id "id-alice") and
 // "bob"/"pw2" (user id "id-bob"); each has an INBOX holding one message in its own index.
 func VerifNewBackendUsers() *Backend {
@@ -40,7 +64,7 @@ func VerifNewBackendUsers() *Backend {
 		u.connector = &verifCredConn{name: cr[0], pass: cr[1]}
 		box := d.AddBox("INBOX", imap.MailboxID("mb-inbox-"+cr[0]), 2)
 		id := imap.NewInternalMessageID()
-		d.AddMsg(id, imap.MessageID("rm-"+cr[0]))
+		d.AddMsg(id, imap.MessageID("rm-"+cr[0]), VerifInboxFlags...)
 		box.AddRow(id, imap.MessageID("rm-"+cr[0]), 1, false, false)
 		st.data[id] = []byte("X-Pm-Gluon-Id: " + id.String() + "\r\n" + verifLit1)
 		b.users[cr[2]] = u
